@@ -29,7 +29,7 @@ InvNoFreeReferenced == NoFreeReferenced(s)
 InvBalancedIsConsistent == BalancedIsConsistent(s)
 InvConservation == s.fb + SumBlk(s) + s.leak = TotalBlocks
 \* removed objects release their blocks
-InvNoLeak == s.leak = 0 /\ s.zomb = {}
+InvNoLeak == NoLeak(s)
 \* counted operations alone never take a directory past LinkMax unless dir_nlink allows it (mkdir is refused: EMLINK)
 InvNoOverflow == Balanced(s) => \A i \in Alloc(s) : OverflowAllowed(s.ty[i], Refs(s, i))
 \* the converse direction of "links = refs exactly when balanced": a consistent state has no skew
